@@ -97,6 +97,18 @@ Theorem C01_cyclic_history_refused : forall i G0,
 Proof. exact CommandProof.cyclic_refused. Qed.
 Print Assumptions C01_cyclic_history_refused.
 
+(* sessions: typed commands one after the other on one database, every command finding the rows the previous one left
+   (after a refused command: the unchanged rows).  Every outcome of the model session satisfies the whole-command
+   statement, and the decider applied to an observed session is sound. *)
+Theorem C01_session_model_holds : forall rows cmds,
+  Cmds_hold (run_session rows cmds) /\ chained (run_session rows cmds) = true.
+Proof. exact CommandProof.session_model_holds. Qed.
+Print Assumptions C01_session_model_holds.
+
+Theorem C01_session_decider_sound : forall l, check_cmds l tt = true -> Cmds_hold l.
+Proof. exact CommandProof.session_decider_sound. Qed.
+Print Assumptions C01_session_decider_sound.
+
 Definition ex_cmd : cmd_in :=
   mkCmd [R.mkS [97;49;98;50;99]%N [] [] []; R.mkS [98;50;99;51;100]%N [[97;49;98;50;99]%N] [] [[108;97;98;48]%N]; R.mkS [99;51;100;52;101]%N [[97;49;98;50;99]%N] [] []; R.mkS [100;52;101;53;102]%N [[98;50;99;51;100]%N; [99;51;100;52;101]%N] [] []; R.mkS [101;53;102;54;97]%N [] [[98;50;99;51;100]%N] []]
         [([98;50;99;51;100]%N, [100;52;101;53;102]%N)] [] [[99;51;100;52;101]%N] true [104;101;97;100;115]%N.
